@@ -34,6 +34,12 @@ qs = [
 for q in qs:
     o = q.optimize()
     print(o._name, sorted(str(k) for k in o.__dask_graph__())[:3])
+# data-dependent planning: the divisions a sort / set_index plans from sampled quantiles (the sampling seed must not depend on the hash seed)
+import numpy as np
+big = pd.DataFrame({"k": np.random.RandomState(3).permutation(400) % 97, "v": np.arange(400)})
+B = dx.from_pandas(big, npartitions=4)
+for q in (B.set_index("k"), B.sort_values("k"), B.set_index("k", npartitions=3), B.assign(k2=B.k * 2).set_index("k2")):
+    print("divisions", tuple(q.divisions), tuple(q.optimize().divisions))
 '''
 
 
@@ -52,6 +58,6 @@ def run(tier):
     for seed, lines in outs.items():
         for i, (a, b) in enumerate(zip(base, lines)):
             if a != b:
-                return [Result("hashseed.determinism", VIOLATION, "hashseed.determinism", f"query {i}: plan/task names differ between PYTHONHASHSEED=0 and {seed}: {a[:80]} vs {b[:80]}",
+                return [Result("hashseed.determinism", VIOLATION, "hashseed.determinism", f"query {i}: plan / task names (or planned divisions) differ between PYTHONHASHSEED=0 and {seed}: {a[:80]} vs {b[:80]}",
                                {"engine": "X", "kind": "hashseed", "query": i, "seeds": ["0", seed]})]
     return [Result("hashseed.determinism", HELD, "", f"{len(base)} optimised plans have identical names and task keys under {len(outs)} hash seeds (concrete by-product, no solver)", extra={"trivial": True})]
